@@ -976,7 +976,7 @@ class Executor:
             j -= 1
         pre, argstr = head[:j], head[j + 1:]
         k = Executor.assign_split(pre)
-        if k >= 0 and re.match(r'^[\w\s().*:&<>\[\]#\',=+-]+$', pre[:k]) and not pre.startswith('<'):
+        if k >= 0 and re.match(r'^[\w\s().*:&<>\[\]#\',=+{}@/-]+$', pre[:k]) and not pre.startswith('<'):
             dest, callee = pre[:k], pre[k + 3:]
         else:
             dest, callee = None, pre
